@@ -83,6 +83,7 @@ int main(int argc, char ** argv) {
   init_n[0] = N; init_n[1] = NW;
   for (int c = 0; c < (two ? 2 : 1); c++) {
     char kind[32];
+    memset(&jc[c], 0x5a, sizeof jc[c]);      /* init must not rely on zero-filled memory */
     myth_join_counter_init(&jc[c], 0, init_n[c]);
     snprintf(kind, sizeof kind, "jc %ld", init_n[c]);
     ctl_name_obj_kind(&jc[c], c + 1, kind);
